@@ -94,8 +94,16 @@ def probe(cfg, rng, ctx, partial):
             require(np.shape(todense(gi)) == np.shape(todense(xi)), "sensitivity-shape-differs-from-state", module=cfg.name,
                     key=cfg.key, got=list(np.shape(todense(gi))), want=list(np.shape(todense(xi))))
     out = []
-    for d in range(2):
-        v = cfg.dirs(rng)
+    # one direction over all inputs, then one per input alone (inputs of very different magnitude - a stiffness in Pa, a load in
+    # nN - would otherwise hide each other's contribution below the tolerance)
+    dirsets = [cfg.dirs(rng)]
+    if len(x0) > 1:
+        full = cfg.dirs(rng)
+        for i in range(len(x0)):
+            dirsets.append([vi if k == i else vi * 0 for k, vi in enumerate(full)])
+    else:
+        dirsets.append(cfg.dirs(rng))
+    for v in dirsets:
         if cfg.tangent is None:
             m2 = cfg.build()
             for s, xi, vi in zip(m2.sig_in, x0, v):
